@@ -33,7 +33,7 @@ type wrapper struct {
 	kind int
 }
 
-var kindNames = []string{"", "?", "x", ""}
+var kindNames = []string{"", "?", "x", "", "??"}
 
 // tokRune is the first rune of token i: kind 3 is a LINE BREAK token (a grammar that consumes line breaks itself,
 // as line-oriented languages do), every other kind starts with the i-th letter
@@ -53,6 +53,10 @@ func tokenParser(i, kind int) parsley.Parser {
 		return combinator.SeqOf(terminal.Rune(tokenRunes[i]), terminal.Rune('x')).Bind(concatInterp)
 	case 3:
 		return terminal.Rune('\n')
+	case 4:
+		// combinator.Optional: when absent it hands back the empty match TOGETHER with its operand's error; used
+		// without trims only (what a trim does around a result that comes with an error is outside the statement)
+		return combinator.Optional(terminal.Rune(tokenRunes[i]))
 	}
 	return terminal.Rune(tokenRunes[i])
 }
@@ -184,7 +188,14 @@ func c10Spec(ws []wrapper, d []byte) c10Expect {
 	pos := 0
 	e := c10Expect{}
 	cur := 0
+	// once a combinator.Optional token was PRESENT there are two readings (it returns the token and the empty match as
+	// alternatives): the parse still succeeds exactly when the consuming reading does, but which of the failures of the
+	// two readings is reported is the sequence's policy, not a statement about whitespace modes
+	ambiguous := false
 	wsFail := func(m text.WsMode, at int) c10Expect {
+		if ambiguous {
+			return c10Expect{failTok: cur}
+		}
 		l, c := lineColOf(d, at)
 		return c10Expect{failTok: cur, errText: fmt.Sprintf("failed to parse the input: %s at f:%d:%d", wsMsg[m], l, c)}
 	}
@@ -193,7 +204,7 @@ func c10Spec(ws []wrapper, d []byte) c10Expect {
 		if w.hasL {
 			end, nl := runAt(d, pos)
 			if ok, at := modeVerdict(w.l, pos, end, nl); !ok {
-				if w.kind != 1 && (end >= len(d) || d[end] != byte(tokRune(i, w.kind))) {
+				if w.kind != 1 && w.kind != 4 && (end >= len(d) || d[end] != byte(tokRune(i, w.kind))) {
 					// the run is not next to the token at all (something else follows it): the statement speaks of runs
 					// next to a token; which error is reported here is not specified
 					return c10Expect{}
@@ -204,13 +215,16 @@ func c10Spec(ws []wrapper, d []byte) c10Expect {
 		}
 		present := pos < len(d) && d[pos] == byte(tokRune(i, w.kind))
 		switch {
-		case w.kind == 1 && !present:
+		case (w.kind == 1 || w.kind == 4) && !present:
 			// an absent optional token: an empty match at this position
 			e.tokStart = append(e.tokStart, pos)
 			e.absent = append(e.absent, true)
 		case !present || (w.kind == 2 && (pos+1 >= len(d) || d[pos+1] != 'x')):
 			return c10Expect{} // whitespace no trim owns (or a missing / incomplete token): some error
 		default:
+			if w.kind == 4 {
+				ambiguous = true
+			}
 			e.tokStart = append(e.tokStart, pos)
 			e.absent = append(e.absent, false)
 			pos++
@@ -366,7 +380,7 @@ func wsStrings(maxLen int) []string {
 type c10Plan struct {
 	// lines: three tokens, the middle one a line-break token without trims (a line-oriented grammar), behind the
 	// lenient look-ahead alternative, which probes the whitespace after the first token on a path that is abandoned
-	lines bool
+	lines    bool
 	named    bool // the sequence carries a Name
 	kinds    bool // every assignment of token kinds {rune, optional rune, two-rune phrase} except all-rune; every token text variant
 	alt      bool
@@ -451,7 +465,7 @@ func c10Run(env *explore.Env) *explore.Result {
 							c := string(tokenRunes[j])
 							variants := []string{c}
 							switch ws[j].kind {
-							case 1:
+							case 1, 4:
 								variants = []string{c, ""}
 							case 2:
 								variants = []string{c + "x", c}
@@ -497,6 +511,9 @@ func c10Run(env *explore.Env) *explore.Result {
 				kinds := []int{0}
 				if pl.kinds {
 					kinds = []int{0, 1, 2}
+				}
+				if pl.kinds && !w.hasL && !w.hasR {
+					kinds = append(kinds, 4)
 				}
 				for _, kd := range kinds {
 					w.kind = kd
